@@ -1542,6 +1542,103 @@ def replay_params_every_entry(a):
     return {"reproduced": bool(out), "mismatches": out, "cases": 8}
 
 
+BUILDER_TEST = r'''
+// written by /verif (replay of a library-builder candidate); lives only in the scratch copy
+use cfn_guard::commands::{Executable, validate::ShowSummaryType};
+use cfn_guard::utils::reader::{ReadBuffer, Reader};
+use cfn_guard::utils::writer::{WriteBuffer, Writer};
+use cfn_guard::{CommandBuilder, ValidateBuilder};
+use std::io::Cursor;
+fn run(rules: &str, data_path: Option<&str>, stdin: &str, params: &[&str]) -> String {
+    let mut b = ValidateBuilder::default().rules(vec![rules.to_string()]).show_summary(vec![ShowSummaryType::None]);
+    if let Some(d) = data_path { b = b.data(vec![d.to_string()]); }
+    if !params.is_empty() { b = b.input_params(params.iter().map(|s| s.to_string()).collect()); }
+    let cmd = match b.try_build() { Ok(c) => c, Err(e) => return format!("BUILD-ERR {}", e).replace('\n', " ") };
+    let mut reader = Reader::new(ReadBuffer::Cursor(Cursor::new(stdin.as_bytes().to_vec())));
+    let mut writer = Writer::new(WriteBuffer::Vec(vec![])).expect("writer");
+    match cmd.execute(&mut writer, &mut reader) { Ok(c) => format!("OK {}", c), Err(_) => "ERR".to_string() }
+}
+#[test]
+fn zz_verif_builder() {
+    let d = "__DIR__";
+    let p = |n: &str| format!("{}/{}", d, n);
+    println!("VERIF-BLD union_stdin {}", run(&p("r.guard"), None, "{\"Name\": \"db\", \"Port\": 3306}", &[]));
+    println!("VERIF-BLD path_params {}", run(&p("r.guard"), Some(&p("d.json")), "", &[&p("p.yaml")]));
+    println!("VERIF-BLD stdin_params {}", run(&p("r.guard"), None, "{\"Name\": \"db\"}", &[&p("p.yaml")]));
+    println!("VERIF-BLD stdin_two_params {}", run(&p("r2.guard"), None, "{\"Name\": \"db\"}", &[&p("p.yaml"), &p("q.yaml")]));
+    println!("VERIF-BLD path_conflict {}", run(&p("r.guard"), Some(&p("c.json")), "", &[&p("p.yaml")]));
+    println!("VERIF-BLD stdin_conflict {}", run(&p("r.guard"), None, "{\"Port\": 3306}", &[&p("p.yaml")]));
+}
+'''
+
+
+def replay_builder(a):
+    """the library builder: a rule that needs a key defined only by a parameter file, data by path and data on STDIN - same code as
+    the union document; a key defined by both the parameters and the data is an error either way"""
+    import os, shutil, subprocess, tempfile
+    d = tempfile.mkdtemp(prefix="cfnverif_replay_")
+    tfile = os.path.join(a.src, "guard", "tests", "zz_verif_builder.rs")
+    env = dict(os.environ)
+    env["CARGO_NET_OFFLINE"] = "true"
+    env["RUST_BACKTRACE"] = "0"
+    base = os.path.basename(a.src.rstrip("/"))
+    env["CARGO_TARGET_DIR"] = os.path.join(os.path.dirname(a.src.rstrip("/")), "native-target" if base == "src" else "native-target-" + base)
+    env.pop("RUSTUP_TOOLCHAIN", None)
+    try:
+        for n, t in (("r.guard", "rule r { Port == 3306 }\n"), ("r2.guard", "rule r { Port == 3306\n Host == \"h\" }\n"), ("p.yaml", "Port: 3306\n"),
+                     ("q.yaml", "Host: h\n"), ("d.json", "{\"Name\": \"db\"}"), ("c.json", "{\"Port\": 3306}")):
+            open(os.path.join(d, n), "w").write(t)
+        open(tfile, "w").write(BUILDER_TEST.replace("__DIR__", d))
+        pr = subprocess.run(["cargo", "test", "--offline", "-p", "cfn-guard", "--test", "zz_verif_builder", "--", "--nocapture"], cwd=a.src,
+                            env=env, capture_output=True, text=True, timeout=1800)
+    finally:
+        if os.path.exists(tfile):
+            os.remove(tfile)
+        shutil.rmtree(d, ignore_errors=True)
+    got = dict(re.findall(r"^VERIF-BLD (\w+) (.*)$", pr.stdout, re.M))
+    if len(got) != 6:
+        return {"reproduced": False, "note": "builder replay did not run: " + (pr.stderr or pr.stdout)[-400:]}
+    want = {"union_stdin": "OK 0", "path_params": "OK 0", "stdin_params": "OK 0", "stdin_two_params": "OK 0", "path_conflict": "ERR", "stdin_conflict": "ERR"}
+    out = [{"case": k, "expected": w, "observed": got[k]} for k, w in want.items() if got[k] != w]
+    return {"reproduced": bool(out), "mismatches": out, "cases": list(want)}
+
+
+def validate_builder_passes_fields(a):
+    """C17 / C07 (library entry): ValidateBuilder::try_build either refuses (Err) or returns a Validate whose EVERY field is the
+    builder's field of the same name, unchanged - the input parameters, the data and rules paths and all flags reach the command
+    exactly as the CLI's clap parser would have filled them in."""
+    VB = struct_fields(a.src, "lib.rs", "ValidateBuilder")
+    ex = a.exec(r"<impl at guard/src/lib\.rs:\d+:\d+: \d+:\d+>::try_build",
+                {"any": lambda ex, av: ex.havoc("bool"), "is_empty": lambda ex, av: ex.havoc("bool"), "eq": lambda ex, av: ex.havoc("bool")},
+                unroll=1, max_paths=4000, first_arg_re=r"_1: ValidateBuilder")
+    a.fns.append("ValidateBuilder::try_build (lib.rs)")
+    me = ex.arg_env["_1"]
+    bad, n = [], 0
+    for p in ex.paths:
+        r = p.ret
+        if p.outcome != "return" or not r or r[0] != "enum" or r[1] != "Result":
+            bad.append(pc_term(p.pc))
+            continue
+        okv = r[3].get("Ok") if isinstance(r[3], dict) else None
+        if okv is None or okv[0] != "struct" or not isinstance(okv[2], dict):
+            # an Err path: constrained only in that it is not the Ok variant
+            bad.append(f"(and {pc_term(p.pc)} (= {r[2]} 0))")
+            continue
+        n += 1
+        probs = [f for f in VB if f not in okv[2]] + [f for f in okv[2] if f not in VB]
+        for f, v in okv[2].items():
+            if f in VB and not same(ex.proj.get((me[1], f".{VB.index(f)}")), v):
+                probs.append(f)
+        bad.append(f"(and {pc_term(p.pc)} (= {r[2]} 0) {'true' if probs else 'false'})")
+    c = a.discharge("ValidateBuilder::try_build/fields-passed-on", ex, bad,
+                    f"library builder ({n} Ok paths, {len(VB)} fields): an Ok result holds, field by field, the builder's own value of "
+                    "the field of the same name (rules, data, input_params, template_type, output_format, show_summary and the six flags)")
+    if c:
+        c["replay"] = replay_builder(a)
+        c["reproduced"] = c["replay"].get("reproduced", False)
+        a.candidates.append(c)
+
+
 def merge_list(a):
     """C17 `nothing is lost`: the list / list arm of PathAwareValue::merge. Two lists merge into the receiver's own vector extended,
     once, by the second list's own vector (all of it, in its order: Vec::extend is std's); nothing else is stored or dropped and the
@@ -5129,7 +5226,7 @@ def replay_junit_wellformed(a):
 SITES = {
     "C06": [command_dispatch, structured_report, structured_parse_closure, junit_exit_code, junit_test_case, junit_report, validate_execute_step, test_generic_report, test_result_exit_code, test_exit_code_domain, test_structured_evaluate],
     "C12": [rules_files_all_evaluated, sarif_per_file_results, structured_report, junit_test_case, junit_report, data_input_wiring, data_input_params_wiring, structured_merge_closure, test_get_by_result, test_structured_evaluate, report_combine_union],
-    "C07": [command_dispatch, validate_params_reach_every_evaluation, flags_verdict_wiring, reporter_chain, library_entry_wiring, sarif_one_result_per_message, sarif_per_file_results, rules_files_all_evaluated, junit_escaping_sites, report_combine_union, structured_report, junit_test_case, junit_report, validate_execute_step,
+    "C07": [command_dispatch, validate_builder_passes_fields, validate_params_reach_every_evaluation, flags_verdict_wiring, reporter_chain, library_entry_wiring, sarif_one_result_per_message, sarif_per_file_results, rules_files_all_evaluated, junit_escaping_sites, report_combine_union, structured_report, junit_test_case, junit_report, validate_execute_step,
             data_input_params_wiring, structured_merge_closure],
     "C16": [test_generic_report, test_get_by_result, test_get_by_rules, test_structured_evaluate, test_result_exit_code, test_junit_counts, test_junit_case_marks, test_data_per_spec],
     "C02": [param_ctx_end_record, scope_delegations, param_rule_call, rule_status_semantics],
@@ -5139,6 +5236,6 @@ SITES = {
     "C03": [param_rule_call],
     "C04": [rule_status_semantics, root_scope_rule_table, scope_delegations, scope_resolution],
     "C01": [rule_status_semantics, root_scope_rule_table, scope_discipline, scope_resolution, scope_delegations, variable_tables, param_rule_call, param_ctx_resolve],
-    "C17": [validate_params_reach_every_evaluation, merge_map, merge_list, merge_unwrap, param_files_fold_step, data_input_params_wiring, structured_merge_closure, supported_extension_predicate, walk_dir_unfiltered],
+    "C17": [validate_builder_passes_fields, validate_params_reach_every_evaluation, merge_map, merge_list, merge_unwrap, param_files_fold_step, data_input_params_wiring, structured_merge_closure, supported_extension_predicate, walk_dir_unfiltered],
     "C08": [merge_unwrap, rulegen_unwrap, test_exit_code_domain, report_builder_total_on_unary],
 }
